@@ -320,7 +320,8 @@ func Run(r *core.Run) {
 		add(a+"/bad-escape", M{"action": a, "uris": []any{"http://a.example/%zz"}}, &no)
 		add(a+"/duplicate", M{"action": a, "uris": []any{"https://a.example/", "did:x:y", "https://a.example/"}}, &no)
 		// the same URI twice, written in a form a URL library would print differently (the very same string is a duplicate however it is spelled)
-		for ui, u := range []string{"HTTPS://Upper.example/Me", "https://x.example/zo\u00eb", "https://x.example/a b", "did:example:123#", "https://x.example/%7euser"} {
+		// (... including the shortest URI references there are: the empty one, a bare fragment sign, a bare query sign, a bare slash, a dot)
+		for ui, u := range []string{"HTTPS://Upper.example/Me", "https://x.example/zo\u00eb", "https://x.example/a b", "did:example:123#", "https://x.example/%7euser", "", "#", "?", "/", ".", "0", "a"} {
 			add(fmt.Sprintf("%s/duplicate-of-unusual-spelling-%d", a, ui), M{"action": a, "uris": []any{u, u}}, &no)
 			add(fmt.Sprintf("%s/duplicate-of-unusual-spelling-after-another-%d", a, ui), M{"action": a, "uris": []any{"https://first.example/", u, u}}, &no)
 			add(fmt.Sprintf("%s/unusual-spelling-once-%d", a, ui), M{"action": a, "uris": []any{u, "https://other.example/"}}, nil)
